@@ -250,6 +250,11 @@ pub mod shim {
 
     pub assume_specification<T, const N: usize> [ <Vec<T> as From<[T; N]>>::from ] (a: [T; N]) -> (r: Vec<T>)
         ensures r@ == a@;
+    // std::cmp::min / max (documented: min returns the first argument when equal, max the second)
+    pub assume_specification<T: core::cmp::Ord> [ core::cmp::min::<T> ] (a: T, b: T) -> (r: T)
+        ensures <T as vstd::std_specs::cmp::OrdSpec>::obeys_cmp_spec() ==> r == (if vstd::std_specs::cmp::OrdSpec::cmp_spec(&b, &a) == core::cmp::Ordering::Less { b } else { a });
+    pub assume_specification<T: core::cmp::Ord> [ core::cmp::max::<T> ] (a: T, b: T) -> (r: T)
+        ensures <T as vstd::std_specs::cmp::OrdSpec>::obeys_cmp_spec() ==> r == (if vstd::std_specs::cmp::OrdSpec::cmp_spec(&b, &a) == core::cmp::Ordering::Less { a } else { b });
 
     // ---------------------------------------------------------------- rule R8: format!/Display
     /// decimal rendering of an unsigned integer (Display for usize/u16/u32)
